@@ -77,6 +77,14 @@ CLAIMS = {
    note="Trusted: Cauchy-Schwarz for sums, svd/eigvals/cov contracts, arccos/sqrt as axiomatised uninterpreted functions, lazy-sum calculus. Reals for floats. One open finding (MPC of a "
         "constant real vector times a complex number is NaN) is listed in known_findings.jsonl.",
    design="6 (C18)", technique="contract-based deductive verification: functional contracts + lemma obligations (pyvc AST->VC, z3 NRA with staged universal lemmas)"),
+ "C20": dict(
+   text="Deductive proof from the real source of plot.stab_plot (hide_poles on/off, with/without covariance error bars, with/without frequency limits), plot.cluster_plot and "
+        "plot.CMIF_plot ('all' and integer nSv; loop invariant over the recorded calls) for symbolic table shapes: the Axes receive exactly one stable-marker sequence with, for "
+        "p = c*n_rows + r, x[p] = Fn[r,c] where the pole is labelled stable else NaN and y[p] = c (the column index extraction accepts; Xi[r,c] for the cluster diagram), one unstable "
+        "sequence for label 0 when poles are shown and none otherwise, error-bar widths paired with their poles, and one curve per requested singular value over the whole grid equal to "
+        "10 log10(S_val[k,k,:]/max S_val[0,0,:]); ValueError iff too many curves are requested. The classes' plot methods pass the result tables and run parameters (call signatures checked).",
+   note="Proof modulo matplotlib (A10); step == 1 scope for the order axis; reals for floats.",
+   design="6 (C20)", technique="contract-based deductive verification: effect-recorder contracts on matplotlib Axes (pyvc AST->VC, z3 incl. integer division), native replay reading back Agg artists"),
 }
 NOT_APPLICABLE = {
  "C07": "accuracy tolerance (2.5 % / 15 %) of a floating-point FFT/peak-picking/regression pipeline: no contract over exact reals can state or discharge it (DESIGN.md section 8); its scale-invariance clause is covered under C08",
